@@ -42,6 +42,21 @@ def run():
                           {"src": ireqs[i]["src"], "observed": got, "expected": want})
                 break
     ck.cov["iterator_body_histories"] = len(icases)
+    # a raise in a parameter expression of a function / iterator literal (evaluated when the literal is): the literal's statement fails
+    praise = [("Err.new(\"boom\")", "err:Err:boom"), ("1 / 0", "err:ZeroDivisionErr:cannot be divided by 0"), ("undefinedname + 1", "err:NameErr:name `undefinedname` is not defined"),
+              ("1.nosuchprop", "err:NoPropErr:property `nosuchprop` is not defined.")]
+    preqs, pexp = [], []
+    for rsrc, want in praise:
+        for shape in ("{{|{r}| 5}}", "{{|a, {r}| a}}", "<{{|{r}| yield 1}}>", "m{{|{r}| 5}}", "{{|x| {{|{r}| x}}}}(1)", "[1, 2]@{{|e| {{|{r}| e}}}}", "{{f: {{|{r}| 5}}}}"):
+            preqs.append({"id": f"p{len(preqs)}", "src": f"say(70)\nr := {shape.format(r=rsrc)}\nsay(71)\nr"})
+            pexp.append(want)
+    pout = run_cases(preqs, label="C07 parameter expressions")
+    for rq, want in zip(preqs, pexp):
+        o = pout[rq["id"]]
+        if o["events"] != ["out:70"] or o["end"] != want:
+            ck.reject("C07:param-expression", f"{rq['src']!r}: {o['events']} {o['end']}; the raise in the parameter expression must end the statement with {want}",
+                      {"src": rq["src"], "observed": [o["events"], o["end"]], "expected": [["out:70"], want]})
+    ck.cov["parameter_expression_programs"] = len(preqs)
     reached = sum(1 for r in res.values() if r["status"] == "ok" and "out:70" in r["observed"]["ev"] and "out:71" not in r["observed"]["ev"])
     ck.cov["evaluations"] = len(fam)
     ck.cov["distinct_nontrivial"] = reached
